@@ -1,7 +1,7 @@
 (* Proofs/UdistTable.v — the executable twin used by the correspondence check (mass_table,
    cumsum, coef, cum_at) yields exactly the counts of Spec/Ucount.v. *)
 From Coq Require Import List ZArith Lia Arith Bool.
-From MM Require Import Base.GEComb Spec.Ucount Proofs.Ucount Model.Choose Model.Udist Proofs.Udist Proofs.UdistTied.
+From MM Require Import Base.GEComb Spec.Ucount Proofs.Ucount Model.GEChoose Model.Udist Proofs.Udist Proofs.UdistTied.
 Import ListNotations.
 Open Scope Z_scope.
 
